@@ -40,6 +40,9 @@ fn stat(id: &str, a: &[Arg]) -> Option<String> {
 }
 
 pub fn dispatch(id: &str, a: &[Arg]) -> Option<String> {
+    if id.starts_with("mv::") {
+        return crate::hand_mv::dispatch(id, a);
+    }
     if id.starts_with("sample::") {
         return crate::hand_samplers::dispatch(id, a);
     }
@@ -152,6 +155,10 @@ pub fn gen(suite: &str, tier: &str, seed: u64) {
     let mut r = Sm::new(seed ^ 0x68616e64);
     let thorough = tier == "thorough";
     let emit = |id: &str, a: &[Arg]| println!("{} {}", id, a.iter().map(|x| x.render()).collect::<Vec<_>>().join(" "));
+    if suite == "multivariate" {
+        crate::hand_mv::gen(tier, seed);
+        return;
+    }
     match suite {
         "stats" => {
             let names = ["min", "max", "abs_min", "abs_max", "mean", "geometric_mean", "harmonic_mean", "variance", "std_dev", "population_variance", "population_std_dev", "quadratic_mean"];
